@@ -3832,9 +3832,22 @@ func (w *Wallet) reliablyPublishTransaction(tx *wire.MsgTx,
 
 	// Along the way, we'll extract our relevant destination addresses from
 	// the transaction.
-	var ourAddrs []btcutil.Address
+	var (
+		ourAddrs     []btcutil.Address
+		alreadyKnown bool
+	)
 	err = walletdb.Update(w.db, func(dbTx walletdb.ReadWriteTx) error {
 		addrmgrNs := dbTx.ReadWriteBucket(waddrmgrNamespaceKey)
+		txmgrNs := dbTx.ReadWriteBucket(wtxmgrNamespaceKey)
+
+		// Remember whether the transaction was recorded before this
+		// attempt, so a failed attempt only removes what it added.
+		details, err := w.TxStore.TxDetails(txmgrNs, &txRec.Hash)
+		if err != nil {
+			return err
+		}
+		alreadyKnown = details != nil
+
 		for _, txOut := range tx.TxOut {
 			_, addrs, _, err := txscript.ExtractPkScriptAddrs(
 				txOut.PkScript, w.chainParams,
@@ -3864,7 +3877,6 @@ func (w *Wallet) reliablyPublishTransaction(tx *wire.MsgTx,
 		// If there is a label we should write, get the namespace key
 		// and record it in the tx store.
 		if len(label) != 0 {
-			txmgrNs := dbTx.ReadWriteBucket(wtxmgrNamespaceKey)
 			if err = w.TxStore.PutTxLabel(txmgrNs, tx.TxHash(), label); err != nil {
 				return err
 			}
@@ -3880,6 +3892,19 @@ func (w *Wallet) reliablyPublishTransaction(tx *wire.MsgTx,
 	// on-chain. This is done outside of the database transaction to prevent
 	// backend interaction within it.
 	if err := chainClient.NotifyReceived(ourAddrs); err != nil {
+		// The transaction was not handed to the backend, so it must
+		// not stay recorded as an unconfirmed spend of our outputs.
+		if !alreadyKnown {
+			dbErr := walletdb.Update(w.db, func(dbTx walletdb.ReadWriteTx) error {
+				txmgrNs := dbTx.ReadWriteBucket(wtxmgrNamespaceKey)
+				return w.TxStore.RemoveUnminedTx(txmgrNs, txRec)
+			})
+			if dbErr != nil {
+				log.Warnf("Unable to remove unpublished "+
+					"transaction %v: %v", tx.TxHash(), dbErr)
+			}
+		}
+
 		return nil, err
 	}
 
